@@ -50,6 +50,11 @@ def asaFrameBuf (points : List V3) (mask : List Bool) (buf : List Nat) (atoms : 
 def asaFrame (points : List V3) (mask : List Bool) (atoms : List Atom) : List Nat :=
   asaFrameBuf points mask (atoms.map (fun _ => 0)) atoms
 
+/-- the selection mask `shrake_rupley` builds from `atom_indices`: `None` selects every atom, a list exactly its members — an empty list none -/
+def maskOf (n : Nat) : Option (List Nat) → List Bool
+  | none => List.replicate n true
+  | some idx => (List.range n).map (fun i => idx.contains i)
+
 /-- `outframe[atom_mapping[j]] += buffer[j]` -/
 def groupSums (nGroups : Nat) (mapping : List Nat) (vals : List Nat) : List Nat :=
   (List.range nGroups).map (fun g => (((mapping.zip vals).filter (fun p => p.1 == g)).map (·.2)).sum)
